@@ -5,7 +5,7 @@
    proofs/ParserProof.v, LexerProof.v. *)
 From DTR Require Import Prelude I64 Ast FramedMap Lexer Parser Bind Eval Stmt Iter WfSpec.
 From DTR Require Import Generated GeneratedTables.
-From DTR.proofs Require Import EvalProof IterLogProof OutputsProof NoPanicProof ParserProof BindProof Chain LexerProof TablesProof.
+From DTR.proofs Require Import EvalProof IterLogProof OutputsProof NoPanicProof ParserProof BindProof Chain LexerProof TablesProof ParserSpansProof.
 From Coq Require Import String.
 Local Open Scope nat_scope.
 
@@ -98,8 +98,22 @@ Theorem C09_punctuation_is_the_source : forallb (fun p =>
     end) gen_punct = true.
 Proof. exact punct_tokens_lexed. Qed.
 
+(* every location attached to a parse error lies within the source text ON CHARACTER BOUNDARIES
+   (byte offset = UTF-8 length of a prefix of the text), start <= end: it can always be rendered *)
+Theorem C09_error_spans_on_character_boundaries : forall s e, parse s = Err e ->
+  Forall (fun sp => boundary s (fst sp) /\ boundary s (snd sp) /\ (fst sp <= snd sp)%N) (pe_at e).
+Proof. exact parse_error_spans_on_boundaries. Qed.
+(* ... and so are the locations a successful parse records for later binding errors *)
+Theorem C09_recorded_spans_on_character_boundaries : forall s p, parse s = Ok p ->
+  Forall (fun x => boundary s (fst (snd x)) /\ boundary s (snd (snd x))) (p_expected_inputs p) /\
+  Forall (fun x => boundary s (fst (snd x)) /\ boundary s (snd (snd x))) (p_read_outputs p) /\
+  Forall (fun sp => boundary s (fst sp) /\ boundary s (snd sp)) (p_signal_spans p) /\
+  Forall (fun x => boundary s (fst (snd x)) /\ boundary s (snd (snd x))) (p_virtuals p).
+Proof. exact parse_recorded_spans_on_boundaries. Qed.
+
 Check C09_parse_never_panics.
 Print Assumptions C09_parse_never_panics.
 Print Assumptions C09_parse_terminates.
 Print Assumptions C09_error_spans_in_text.
+Print Assumptions C09_error_spans_on_character_boundaries.
 Print Assumptions C09_token_spans_on_character_boundaries.
